@@ -1071,6 +1071,9 @@ func (l *LineWrapper) wrapNextLine(config lineConfig) (done bool) {
 		case truncated:
 			// The candidateRun does not fit.
 			if !l.scratch.hasBest() {
+				// Nothing fits beside the truncator. The runs collected while reaching
+				// this candidate were never measured: drop them, the line is empty.
+				l.restore()
 				l.scratch.markCandidateBest()
 			}
 			if l.config.BreakPolicy == Never {
@@ -1122,6 +1125,7 @@ func (l *LineWrapper) wrapNextLine(config lineConfig) (done bool) {
 				return true
 			case truncated:
 				if !l.scratch.hasBest() {
+					l.restore()
 					l.scratch.markCandidateBest()
 				}
 				return true
